@@ -142,6 +142,33 @@ class Ref:
         b = h ** 2 * d3 / 6.0 * 1.5
         return b * abs(self.y_scale) if self.y_scale else b
 
+    def slope_tolerance(self, p, fn):
+        """first-order bound on how much fn() (any functional of the projected covariance) can change when kafe2's
+        finite-difference slope deviates from the analytic one by at most slope_error_bound: 2 * sum_i |fn(slope + b_i e_i) - fn(slope)|"""
+        if self.t != "xy":
+            return 0.0
+        Vx = self.axis_cov("x", p)
+        if not np.any(Vx != 0):
+            return 0.0
+        b = self.slope_error_bound(p, np.sqrt(np.diag(Vx)))
+        if not np.any(b > 0):
+            return 0.0
+        base = fn()
+        orig = self.slope
+        dev = 0.0
+        try:
+            for i in np.nonzero(b > 0)[0]:
+                bi = np.zeros_like(b)
+                bi[i] = b[i]
+                self.slope = lambda pp, _b=bi: orig(pp) + _b
+                try:
+                    dev += abs(fn() - base)
+                except np.linalg.LinAlgError:
+                    return np.inf
+        finally:
+            self.slope = orig
+        return 2.0 * dev
+
     def axis_cov(self, axis, p, which=("data", "model"), enabled_only=True):
         V = np.zeros((self.n, self.n))
         for s in self.spec.get("sources", []):
